@@ -28,6 +28,22 @@ def run(ctx):
                          ("random-shadow", ["-mode", "random", "-world", "shadow", "-nofaults", "-cases", "6000", "-len", "40"]),
                          ("conc", ["-mode", "conc", "-cases", "3000"])]
         traces = sm.run_traces(ctx, hx, runs, "C11")
+        if not ctx.replay:
+            # collector scenarios (judged directly): only a Reader / a WithBytesFunc closure is kept, GC and
+            # finalizers run, the unclosed secret must still be readable
+            tr = os.path.join(ctx.work, "gc.trace")
+            if ctx.run_harness(hx, ["-mode", "gc"], tr, timeout=300):
+                lines = open(tr).read().splitlines()
+                bad = [l for l in lines if l.startswith("GC-FAIL")]
+                good = [l for l in lines if l.startswith("GC-OK")]
+                traces.append(("gc", (bad + good + ["no verdict line"])[0]))
+                for l in bad:
+                    ctx.monitor_fail.append({"what": l, "signature": "secmem gc " + l.split(": ", 1)[1][:60],
+                                             "case": "hxsecmem -mode gc\n" + l})
+                if not bad and not good:
+                    ctx.corr_broken.append("hxsecmem -mode gc produced no verdict line")
+                for l in good:
+                    n = int(l.split("=")[1]); ctx.cov["traces_validated_against_impl"] += n; ctx.cov["evaluations"] += n
     ctx.cov["rule"] = ("random-real = seeded random sequences of New/CreateRandom/WithBytes/WithBytesFunc (nested 0-2)/NewReader+Read/Close/IsClosed "
                        "on both implementations with the REAL memcall, sizes 1 B .. 5 pages; at every step /proc/self/smaps is read for the "
                        "address seen inside the callback (inside: r--,lo,dd; between: ---,lo,dd; after Close: unmapped) and compared with the "
